@@ -108,7 +108,7 @@ static void run_sink(hctx* h, fcase* fc, int kind, long k, const uint8_t* good, 
     carquet_error_t err; memset(&err, 0, sizeof err);
     carquet_schema_t* sc = carquet_schema_create(&err);
     for (int i = 0; i < fc->ncols; i++)
-        (void)!carquet_schema_add_column(sc, fc->cols[i].name, (carquet_physical_type_t)fc->cols[i].ptype, NULL, (carquet_field_repetition_t)fc->cols[i].rep, fc->cols[i].tlen);
+        (void)!add_case_column(sc, &fc->cols[i]);
     carquet_writer_options_t wo; carquet_writer_options_init(&wo);
     wo.compression = (carquet_compression_t)fc->codec; wo.page_size = fc->page;
     static sink_t s; memset(&s, 0, sizeof s); s.byte_budget = kind == 0 ? k : -1; s.op_budget = (kind == 1 || kind == 4) ? k : -1; s.transient = kind == 4;
@@ -193,7 +193,7 @@ static void run_abort_limited(hctx* h, fcase* fc, int at, long lim) {
         carquet_error_t err; memset(&err, 0, sizeof err);
         carquet_schema_t* sc = carquet_schema_create(&err);
         for (int i = 0; i < fc->ncols; i++)
-            (void)!carquet_schema_add_column(sc, fc->cols[i].name, (carquet_physical_type_t)fc->cols[i].ptype, NULL, (carquet_field_repetition_t)fc->cols[i].rep, fc->cols[i].tlen);
+            (void)!add_case_column(sc, &fc->cols[i]);
         carquet_writer_options_t wo; carquet_writer_options_init(&wo);
         wo.compression = (carquet_compression_t)fc->codec; wo.page_size = fc->page;
         carquet_writer_t* w = carquet_writer_create(path, sc, &wo, &err);
@@ -229,7 +229,7 @@ static void run_abort(hctx* h, fcase* fc, int at) {
     carquet_error_t err; memset(&err, 0, sizeof err);
     carquet_schema_t* sc = carquet_schema_create(&err);
     for (int i = 0; i < fc->ncols; i++)
-        (void)!carquet_schema_add_column(sc, fc->cols[i].name, (carquet_physical_type_t)fc->cols[i].ptype, NULL, (carquet_field_repetition_t)fc->cols[i].rep, fc->cols[i].tlen);
+        (void)!add_case_column(sc, &fc->cols[i]);
     carquet_writer_options_t wo; carquet_writer_options_init(&wo);
     wo.compression = (carquet_compression_t)fc->codec; wo.page_size = fc->page;
     carquet_writer_t* w = carquet_writer_create(path, sc, &wo, &err);
